@@ -1,4 +1,5 @@
 import PqModel.Layout
+import PqModel.ThriftWriteProofs
 
 /-! # C02 — Every written file is well-formed Parquet (layout accounting) -/
 namespace PqModel.Props.C02
@@ -28,5 +29,69 @@ theorem rowGroup_wf (start : Nat) (cs : List (List PageOp)) :
 
 example : WellOrdered [⟨true, 10, 20, 25, 3, 0⟩, ⟨false, 12, 30, 40, 5, 5⟩] := by
   intro q hq; simp at hq; subst hq; rfl
+
+/-! ## Thrift compact protocol: the independent reader reads back what the encoder mirror writes
+
+`ThriftWrite.writeStruct` / `writeVal` MIRROR the library's compact-protocol encoder
+(`encoding/thrift/compact.go`, `encode.go`) on the typed tree `WVal`; `Spec.readStruct` / `rdVal` are
+the SPEC reader (written from the protocol description) that `file.check` parses every footer, page
+header and index with; `erase` forgets the integer widths and drops the fields the encoder omits. -/
+section Thrift
+open PqModel.Spec PqModel.ThriftWrite
+
+/-- ULEB128: the spec reader returns the number `PutUvarint` wrote (any 64-bit value, anywhere in a
+    buffer, whatever follows). -/
+theorem uvarint_round_trip (x : Nat) (hx : x < 2 ^ 64) (pre rest : List UInt8) :
+    uvarint ⟨(pre ++ (uvarintBytes x ++ rest)).toArray⟩ pre.length = .ok (x, pre.length + (uvarintBytes x).length) :=
+  uvarint_put _ x pre.length hx ⟨pre, rest, rfl, rfl⟩
+
+/-- zigzag: the spec reading of `PutVarint`'s bit manipulation on the int64 is the integer. -/
+theorem zigzag_round_trip (i : Int) (h1 : -9223372036854775808 ≤ i) (h2 : i < 9223372036854775808) :
+    zigzag (PqModel.Delta.zigzag64 (BitVec.ofInt 64 i)) = i :=
+  zigzag_zigzag64 i h1 h2
+
+/-- a zigzag varint (i16, i32, i64 and long-form field ids) reads back as the integer -/
+theorem varint_round_trip (i : Int) (h1 : -9223372036854775808 ≤ i) (h2 : i < 9223372036854775808)
+    (pre rest : List UInt8) :
+    ∃ n, uvarint ⟨(pre ++ (varintBytes i ++ rest)).toArray⟩ pre.length = .ok (n, pre.length + (varintBytes i).length) ∧
+      zigzag n = i :=
+  varint_put _ i pre.length h1 h2 ⟨pre, rest, rfl, rfl⟩
+
+/-- **Round trip of a struct** (what `thrift.Marshal` returns for `FileMetaData`, `PageHeader`,
+    `ColumnIndex`, `OffsetIndex`, …): for every well-formed tree — ints within their width, lengths
+    within int32, list elements of the announced element type, written field ids ascending in
+    1..32767; ANY nesting depth and size (the reader's fuel `2·size + 64` is proved sufficient) —
+    the spec reader applied to the mirror writer's bytes, at any offset and with arbitrary trailing
+    bytes, returns exactly the tree and stops right behind the struct. -/
+theorem read_write_struct (fs : List (FMeta × WVal)) (pre rest : List UInt8) (hw : WfF 0 fs = true) :
+    readStruct ⟨(pre ++ (writeStruct fs ++ rest)).toArray⟩ pre.length =
+      .ok (.struct (eraseF fs), pre.length + (writeStruct fs).length) :=
+  readStruct_writeStruct fs pre rest hw
+
+/-- the same for a value in field position, with explicit fuel: `2·len + 1` suffices -/
+theorem read_write_val (v : WVal) (pre rest : List UInt8) (fuel : Nat) (hw : WfT v = true)
+    (hf : 2 * (writeVal v).length + 1 ≤ fuel) :
+    rdVal ⟨(pre ++ (writeVal v ++ rest)).toArray⟩ fuel (fcode v) pre.length =
+      .ok (erase v, pre.length + (writeVal v).length) :=
+  rdVal_write _ v fuel pre.length hw ⟨pre, rest, rfl, rfl⟩ hf
+
+example : WfT (.list 12 [.struct [], .struct [({id := 16}, .i8 (-128)), ({id := 32767}, .list 9 [.list 2 []])]]) = true := by
+  decide
+
+/-- non-vacuity: a page-header-like tree with a long-form field id, a 15-element list (long list
+    header), a bool list, nested structs, an omitted zero field and a kept `writezero` one -/
+example : WfF 0 [({id := 1, required := true}, .i32 3), ({id := 2, zero := true}, .i32 0),
+    ({id := 3, writezero := true, zero := true}, .i64 0), ({id := 4}, .bool true),
+    ({id := 20}, .list 2 [.bool true, .bool false]),
+    ({id := 21}, .list 6 (List.replicate 15 (.i64 (-9223372036854775808)))),
+    ({id := 300}, .struct [({id := 5}, .struct []), ({id := 7}, .bin [0xFF, 0]), ({id := 8}, .double 1)])] = true := by
+  decide
+
+/-- the encoder's bytes for a small tree, computed by the kernel (field 1 i32 5 → `15 0A`; field 20
+    → long form `09 28`, list header `22`; stop) -/
+example : writeStruct [({id := 1, required := true}, .i32 5), ({id := 20}, .list 2 [.bool true, .bool false])] =
+    [0x15, 0x0A, 0x09, 0x28, 0x22, 0x01, 0x00, 0x00] := by decide
+
+end Thrift
 
 end PqModel.Props.C02
